@@ -593,8 +593,21 @@ fn build_function(function: &Function) -> Result<proc_macro2::TokenStream, anyho
         } => {
             let field_ident = str_to_ident(field);
             let function_to_call_name = str_to_ident(function_name);
+            // Borrow the field the way the callee takes its receiver, so that the method
+            // call finds the base's inherent method first; with auto-referencing, a trait
+            // method in scope (`AsRef::as_ref`, `Clone::clone`, `Into::into`, ...) of the
+            // same name can be picked instead.
+            let receiver = if function
+                .arguments
+                .iter()
+                .any(|a| matches!(a, Argument::MutSelf))
+            {
+                quote! { (&mut self.#field_ident) }
+            } else {
+                quote! { (&self.#field_ident) }
+            };
             quote! {
-                self.#field_ident.#function_to_call_name(#(#call_arguments),*)
+                #receiver.#function_to_call_name(#(#call_arguments),*)
             }
         }
         FunctionBody::Vftable { function_name } => {
